@@ -419,6 +419,45 @@ def rule_unique_parameters(ctx: Ctx) -> None:
             "uniqueness test of the parameter names not recognised", key="unique-parameters")
 
 
+def rule_clash_whole(ctx: Ctx) -> None:
+    """The output-vs-own-parameter clash is decided over ALL parameters of the function: an operand of the deciding test that
+    is a restriction of the parameter names (a set difference, a filter) exempts some parameters, and a function whose output
+    is named like an exempted parameter is accepted and run."""
+    from ..flow import narrowings, reach_rejections
+
+    vn = ctx.prog.func(f"{PF}._validate_names")
+    defs = Defs(vn)
+    found, narrowed = [], []
+    for n in walk_no_nested(vn.node):
+        if not isinstance(n, ast.If) or not any(isinstance(x, ast.Raise) for b in n.body for x in ast.walk(b)):
+            continue
+        t = defs.resolve(n.test)
+        txt = norm(t)
+        if "output_name" not in txt or "parameters" not in txt:
+            continue
+        while isinstance(t, ast.NamedExpr) or (isinstance(t, ast.UnaryOp) and isinstance(t.op, ast.Not)):
+            t = t.value if isinstance(t, ast.NamedExpr) else t.operand
+        if isinstance(t, ast.BinOp) and isinstance(t.op, ast.BitAnd):
+            ops = [t.left, t.right]
+        elif isinstance(t, ast.Call) and isinstance(t.func, ast.Attribute) and t.func.attr in ("intersection", "isdisjoint") and len(t.args) == 1:
+            ops = [t.func.value, t.args[0]]
+        else:
+            continue  # not an overlap test of two collections
+        sides = ["parameters" in norm(o) for o in ops], ["output_name" in norm(o) for o in ops]
+        if not ((sides[0][0] and sides[1][1]) or (sides[0][1] and sides[1][0])):
+            continue  # the two operands are not (parameter names, output names)
+        found.append(n)
+        for o in ops:
+            narrowed += [(n, why) for _x, why in narrowings(o, intersections=True)]
+    rj = reach_rejections(ctx, vn, depth=3)
+    about = [c for r in rj for c in r["conds"] if "output_name" in c and "parameters" in c]
+    ctx.tri("1-wired", vn, (narrowed[0][0] if narrowed else found[0] if found else vn.node), bool(found) and not narrowed, bool(narrowed) or (bool(rj) and not about and not found),
+            "the output/parameter name clash is decided over all parameters of the function",
+            (f"the clash test exempts some parameters ({narrowed[0][1]}): a function whose output is named like an exempted parameter is accepted and executed" if narrowed
+             else "no rejection of _validate_names relates output_name to the parameters: a function whose output is named like its own parameter is accepted"),
+            "output/parameter clash test not recognised", key="clash-whole")
+
+
 def rule_run_upfront(ctx: Ctx) -> None:
     """pipeline(...) / Pipeline.run: surplus and missing keyword arguments are to be rejected before a user function runs.
     Checked as: the test that guards the UnusedParametersError precedes (dominates) the evaluation, and the evaluation cannot be
@@ -447,13 +486,14 @@ def rule_run_upfront(ctx: Ctx) -> None:
 
 
 def check(ctx: Ctx) -> None:
-    for rule in (rule_wired, rule_no_user, rule_no_write, rule_unique_parameters, rule_run_upfront):
+    for rule in (rule_wired, rule_no_user, rule_no_write, rule_unique_parameters, rule_clash_whole, rule_run_upfront):
         ctx.run(rule)
 
 
 B, PFF, PR, RIF = "pipefunc/_pipeline/_base.py", "pipefunc/_pipefunc.py", "pipefunc/map/_prepare.py", "pipefunc/map/_run_info.py"
 MUTANTS = [
     Mutant("duplicate-parameters-F39", "pipefunc/_pipefunc.py", "        if len(set(self.parameters)) != len(self.parameters):\n", "        if False:\n", ("C12.1-wired",), why="original F39"),
+    Mutant("clash-exempts-bound", "pipefunc/_pipefunc.py", "        if overlap := set(self.parameters) & set(at_least_tuple(self.output_name)):\n", "        if overlap := (set(self.parameters) - set(self._bound)) & set(at_least_tuple(self.output_name)):\n", ("C12.1-wired",), why="round-4 seed C12/10"),
     Mutant("defaults-none-as-absent", "pipefunc/_pipeline/_validation.py", "            if arg not in arg_defaults:\n                arg_defaults[arg] = default_value\n            elif default_value != arg_defaults[arg]:\n",
            "            if (known := arg_defaults.get(arg)) is None:\n                arg_defaults[arg] = default_value\n            elif default_value != known:\n", ("C12.1-wired",), why="round-2 seed C12/6"),
     Mutant("add-no-unique-check", B, "        validate_unique_output_names(f.output_name, self.output_to_func)\n", "", ("C12.1-wired",)),
